@@ -1236,3 +1236,247 @@ Proof.
   split; [vm_compute; reflexivity|]. split; [vm_compute; reflexivity|].
   split; [apply good_nv_root|]. split; [vm_compute; discriminate | vm_compute; reflexivity].
 Qed.
+
+(* ------------------------------------------------------------------ *)
+(* nested values: under shape compatibility (no dict meets a non-dict at a common
+   position) the merge is the SAME pointwise cell merge, at every key path *)
+
+Definition shape_compat (a b : value) : Prop :=
+  forall ks x y, at_path ks a = Some x -> at_path ks b = Some y -> is_dict x = is_dict y.
+
+Lemma shape_compat_down : forall da db k x y,
+  shape_compat (VDict da) (VDict db) -> lookup k da = Some x -> lookup k db = Some y -> shape_compat x y.
+Proof.
+  intros da db k x y H Hx Hy ks x' y' Hx' Hy'.
+  apply (H (k :: ks)); cbn [at_path]; [rewrite Hx | rewrite Hy]; assumption.
+Qed.
+
+Lemma shape_compat_sym : forall a b, shape_compat a b -> shape_compat b a.
+Proof. intros a b H ks x y Hx Hy. symmetry. eapply H; eassumption. Qed.
+
+Lemma obs_nil : forall v, obs [] v = Some (shape v).
+Proof. reflexivity. Qed.
+
+Lemma obs_cons_dict : forall k t d, obs (k :: t) (VDict d) = match lookup k d with Some v => obs t v | None => None end.
+Proof. intros. unfold obs. cbn [at_path]. destruct (lookup k d); reflexivity. Qed.
+
+Lemma obs_cons_leaf : forall k t v, is_dict v = false -> obs (k :: t) v = None.
+Proof. intros k t v H. unfold obs. destruct v; try reflexivity. discriminate. Qed.
+
+Lemma shape_shape_leaf : forall v, is_dict v = false -> shape v = v.
+Proof. intros v H; destruct v; try reflexivity; discriminate. Qed.
+
+Theorem obs_merge_val : forall vl vr ks p a b,
+  wf_value b -> shape_compat a b ->
+  obs ks (merge_val vl vr p a b) =
+  fst (dmerge (obs ks a, getv (path_str p ks) vl) (obs ks b, getv (path_str p ks) vr)).
+Proof.
+  intros vl vr. induction ks as [|k t IH]; intros p a b Hw Hs.
+  - cbn [path_str]. rewrite !obs_nil. unfold dmerge. cbn [fst snd].
+    pose proof (Hs [] a b eq_refl eq_refl) as Hd.
+    destruct (is_dict a) eqn:Ea.
+    + destruct a; try discriminate. destruct b; try discriminate. rewrite merge_val_dict. cbn [shape].
+      destruct (N.ltb _ _); reflexivity.
+    + rewrite merge_val_leaf by (rewrite Ea; reflexivity).
+      destruct (N.ltb _ _); reflexivity.
+  - cbn [path_str]. pose proof (Hs [] a b eq_refl eq_refl) as Hd.
+    destruct (is_dict a) eqn:Ea.
+    + destruct a as [| | | | |da]; try discriminate. destruct b as [| | | | |db]; try discriminate.
+      rewrite merge_val_dict. rewrite !obs_cons_dict.
+      rewrite lookup_merge_items by (apply wf_dict_nodup; assumption).
+      destruct (lookup k da) as [x|] eqn:Ex, (lookup k db) as [y|] eqn:Ey; cbn [pick_val].
+      * rewrite IH; [reflexivity | eapply wf_dict_elem; eassumption | eapply shape_compat_down; eassumption].
+      * unfold dmerge; cbn [fst snd]. destruct (obs t x); reflexivity.
+      * unfold dmerge; cbn [fst snd]. reflexivity.
+      * reflexivity.
+    + rewrite merge_val_leaf by (rewrite Ea; reflexivity).
+      assert (Eb : is_dict b = false) by (rewrite <- Hd; reflexivity).
+      rewrite (obs_cons_leaf k t a Ea), (obs_cons_leaf k t b Eb).
+      destruct (N.ltb _ _); [apply obs_cons_leaf; assumption | apply obs_cons_leaf; assumption].
+Qed.
+
+(* cell of a context at a key path *)
+Definition den_path (c : ctx) (ks : list string) : cell :=
+  (obs ks (VDict (cdata c)), getv (path_str "" ks) (cvers c)).
+
+Definition shape_compat_ctx (l r : ctx) : Prop := shape_compat (VDict (cdata l)) (VDict (cdata r)).
+
+Lemma obs_remove_te : forall d ks, lookup TASK_EXECUTION_KEY d = None ->
+  obs ks (VDict (remove TASK_EXECUTION_KEY d)) = obs ks (VDict d).
+Proof.
+  intros d ks H. destruct ks as [|k t]; [reflexivity|]. rewrite !obs_cons_dict, lookup_remove.
+  destruct (String.eqb TASK_EXECUTION_KEY k) eqn:E; [|reflexivity].
+  apply String.eqb_eq in E; subst k. rewrite H. reflexivity.
+Qed.
+
+Lemma shape_compat_remove : forall da db k,
+  shape_compat (VDict da) (VDict db) -> shape_compat (VDict (remove k da)) (VDict (remove k db)).
+Proof.
+  intros da db k H ks x y Hx Hy.
+  destruct (at_path_remove _ _ _ _ Hx) as [Hx'|E]; destruct (at_path_remove _ _ _ _ Hy) as [Hy'|E'];
+    try (subst ks; cbn [at_path] in Hx, Hy; inversion Hx; inversion Hy; subst; reflexivity).
+  eapply H; eassumption.
+Qed.
+
+Record goodn (c : ctx) : Prop := { goodn_wf : wf_ctx c; goodn_te : te_free c }.
+
+Theorem den_path_merge_ctx : forall l r ks,
+  goodn l -> goodn r -> shape_compat_ctx l r ->
+  den_path (merge_ctx l r) ks = dmerge (den_path l ks) (den_path r ks).
+Proof.
+  intros l r ks [[Hld Hlv] Htl] [[Hrd Hrv] Htr] Hs. unfold den_path, merge_ctx. cbn [cdata cvers].
+  rewrite getv_merge_vers by assumption.
+  rewrite <- merge_val_dict. rewrite obs_merge_val; [| apply wf_remove; assumption | apply shape_compat_remove; assumption].
+  rewrite !obs_remove_te by assumption. unfold dmerge. cbn [fst snd]. reflexivity.
+Qed.
+
+Lemma goodn_merge : forall l r, goodn l -> goodn r -> goodn (merge_ctx l r).
+Proof.
+  intros l r [Hl Htl] [Hr Htr]. constructor; [apply wf_merge_ctx; assumption | apply te_free_merge_ctx; assumption].
+Qed.
+
+(* shape compatibility with a third context is kept by the merge *)
+Lemma obs_shape_compat : forall a b,
+  shape_compat a b <-> (forall ks sa sb, obs ks a = Some sa -> obs ks b = Some sb -> is_dict sa = is_dict sb).
+Proof.
+  intros a b. unfold obs. split.
+  - intros H ks sa sb Ha Hb. destruct (at_path ks a) as [x|] eqn:Ex; try discriminate.
+    destruct (at_path ks b) as [y|] eqn:Ey; try discriminate. cbn in Ha, Hb. inversion Ha; inversion Hb; subst.
+    pose proof (H ks x y Ex Ey) as E. destruct x, y; cbn in *; congruence.
+  - intros H ks x y Hx Hy. specialize (H ks (shape x) (shape y)). rewrite Hx, Hy in H. cbn in H.
+    specialize (H eq_refl eq_refl). destruct x, y; cbn in *; congruence.
+Qed.
+
+Lemma shape_compat_merge : forall l r c,
+  goodn l -> goodn r -> shape_compat_ctx l r -> shape_compat_ctx l c -> shape_compat_ctx r c ->
+  shape_compat_ctx (merge_ctx l r) c.
+Proof.
+  intros l r c Hl Hr Hlr Hlc Hrc. unfold shape_compat_ctx in *. apply obs_shape_compat.
+  intros ks sa sb Ha Hb.
+  pose proof (den_path_merge_ctx l r ks Hl Hr Hlr) as E. unfold den_path in E.
+  apply (f_equal fst) in E. cbn [fst] in E. rewrite E in Ha. clear E.
+  unfold dmerge in Ha. cbn [fst snd] in Ha.
+  destruct (obs ks (VDict (cdata l))) as [ol|] eqn:El; destruct (obs ks (VDict (cdata r))) as [or|] eqn:Er.
+  - destruct (N.ltb _ _); inversion Ha; subst.
+    + eapply (proj1 (obs_shape_compat _ _) Hrc); eassumption.
+    + eapply (proj1 (obs_shape_compat _ _) Hlc); eassumption.
+  - inversion Ha; subst. eapply (proj1 (obs_shape_compat _ _) Hlc); eassumption.
+  - inversion Ha; subst. eapply (proj1 (obs_shape_compat _ _) Hrc); eassumption.
+  - discriminate.
+Qed.
+
+(* pairwise shape compatibility of a list of contexts, base included *)
+Definition pairwise_sc (L : list ctx) : Prop := forall x y, In x L -> In y L -> shape_compat_ctx x y.
+
+Lemma den_path_fold_merge : forall cs b ks, goodn b -> Forall goodn cs -> pairwise_sc (b :: cs) ->
+  den_path (fold_left merge_ctx cs b) ks = fold_left dmerge (map (fun c => den_path c ks) cs) (den_path b ks).
+Proof.
+  induction cs as [|c t IH]; intros b ks Hb Hcs Hsc; cbn [fold_left map].
+  - reflexivity.
+  - inversion Hcs as [|? ? Hc Ht]; subst.
+    assert (Sbc : shape_compat_ctx b c) by (apply (Hsc b c); cbn; auto).
+    rewrite IH; try assumption.
+    + rewrite den_path_merge_ctx; [reflexivity | assumption | assumption | exact Sbc].
+    + apply goodn_merge; assumption.
+    + assert (A : forall y, In y t -> shape_compat_ctx (merge_ctx b c) y).
+      { intros y Hy. apply shape_compat_merge; try assumption; [apply (Hsc b y) | apply (Hsc c y)]; cbn; auto. }
+      intros x y Hx Hy. destruct Hx as [Hx|Hx], Hy as [Hy|Hy]; subst.
+      * apply shape_compat_merge; try assumption; unfold shape_compat_ctx; apply shape_compat_sym;
+          apply shape_compat_merge; try assumption;
+          first [apply (Hsc b b) | apply (Hsc c b) | apply (Hsc b c) | apply (Hsc c c)]; cbn; auto.
+      * apply A; assumption.
+      * unfold shape_compat_ctx. apply shape_compat_sym. apply A; assumption.
+      * apply (Hsc x y); cbn; auto.
+Qed.
+
+Definition cells_path (ups : list tex) (ks : list string) : list cell := map (fun t => den_path (out_of t) ks) ups.
+
+Definition den_up_path (ups : list tex) (ks : list string) : option cell :=
+  option_map (fun c => den_path c ks) (eval_upstream ups).
+
+Lemma den_up_path_snoc : forall l b ks,
+  Forall goodn (map out_of (l ++ [b])) -> pairwise_sc (map out_of (l ++ [b])) ->
+  den_up_path (l ++ [b]) ks = big (den_path (out_of b) ks :: cells_path l ks).
+Proof.
+  intros l b ks Hg Hsc. unfold den_up_path. rewrite eval_upstream_snoc. cbn [option_map big]. f_equal.
+  rewrite merge_all_fold. rewrite map_app in Hg, Hsc. apply Forall_app in Hg. destruct Hg as [Hg1 Hg2].
+  inversion Hg2; subst.
+  rewrite den_path_fold_merge; try assumption.
+  - unfold cells_path. rewrite map_map. reflexivity.
+  - intros x y Hx Hy. apply Hsc; cbn [map]; apply in_or_app.
+    + destruct Hx as [Hx|Hx]; [right; left; assumption | left; assumption].
+    + destruct Hy as [Hy|Hy]; [right; left; assumption | left; assumption].
+Qed.
+
+(* ORDER INDEPENDENCE, nested values: at every key path *)
+Theorem upstream_perm_nested : forall ups ups' ks,
+  Permutation ups ups' ->
+  Forall goodn (map out_of ups) -> pairwise_sc (map out_of ups) ->
+  pairwise_cf (cells_path ups ks) -> all_ok (cells_path ups ks) ->
+  den_up_path ups ks = den_up_path ups' ks.
+Proof.
+  intros ups ups' ks HP Hg Hsc Hcf Hok.
+  destruct ups as [|t0 ts0] using rev_ind.
+  - apply Permutation_nil in HP. subst. reflexivity.
+  - clear IHts0. destruct ups' as [|t1 ts1] using rev_ind.
+    + apply Permutation_sym, Permutation_nil in HP. destruct ts0; discriminate.
+    + clear IHts1.
+      assert (PM : Permutation (map out_of (ts0 ++ [t0])) (map out_of (ts1 ++ [t1]))) by (apply Permutation_map; assumption).
+      assert (Hg' : Forall goodn (map out_of (ts1 ++ [t1]))).
+      { rewrite Forall_forall in *. intros c Hc. apply Hg. eapply Permutation_in; [apply Permutation_sym; eassumption | assumption]. }
+      assert (Hsc' : pairwise_sc (map out_of (ts1 ++ [t1]))).
+      { intros x y Hx Hy. apply Hsc; eapply Permutation_in; try (apply Permutation_sym; eassumption); assumption. }
+      rewrite !den_up_path_snoc by assumption.
+      assert (P1 : Permutation (den_path (out_of t0) ks :: cells_path ts0 ks) (cells_path (ts0 ++ [t0]) ks)).
+      { unfold cells_path. rewrite map_app. cbn [map]. apply Permutation_cons_append. }
+      assert (P2 : Permutation (cells_path (ts1 ++ [t1]) ks) (den_path (out_of t1) ks :: cells_path ts1 ks)).
+      { unfold cells_path. rewrite map_app. cbn [map]. apply Permutation_sym, Permutation_cons_append. }
+      assert (P3 : Permutation (cells_path (ts0 ++ [t0]) ks) (cells_path (ts1 ++ [t1]) ks)).
+      { unfold cells_path. apply Permutation_map. assumption. }
+      apply big_perm.
+      * eapply Permutation_trans; [exact P1|]. eapply Permutation_trans; [exact P3 | exact P2].
+      * intros u v Hu Hv. apply Hcf; eapply Permutation_in; try exact P1; assumption.
+      * intros u Hu. apply Hok; eapply Permutation_in; try exact P1; assumption.
+Qed.
+
+(* the row with the strictly highest version at a path decides what is there *)
+Theorem upstream_latest_wins_nested : forall u1 t u2 ks o,
+  Forall goodn (map out_of (u1 ++ t :: u2)) -> pairwise_sc (map out_of (u1 ++ t :: u2)) ->
+  obs ks (VDict (cdata (out_of t))) = Some o ->
+  (forall t', In t' (u1 ++ u2) ->
+     (getv (path_str "" ks) (cvers (out_of t')) < getv (path_str "" ks) (cvers (out_of t)))%N) ->
+  den_up_path (u1 ++ t :: u2) ks = Some (Some o, getv (path_str "" ks) (cvers (out_of t))).
+Proof.
+  intros u1 t u2 ks o Hg Hsc Hv Hlt.
+  assert (Hx : den_path (out_of t) ks = (Some o, getv (path_str "" ks) (cvers (out_of t)))).
+  { unfold den_path. rewrite Hv. reflexivity. }
+  destruct u2 as [|b u2'] using rev_ind.
+  - rewrite den_up_path_snoc by assumption. rewrite Hx.
+    apply (big_strict_max [] (cells_path u1 ks)). intros y Hy. cbn [app] in Hy. unfold cells_path in Hy.
+    apply in_map_iff in Hy. destruct Hy as [t' [E Hi]]. subst y. cbn [den_path snd].
+    apply Hlt. rewrite app_nil_r. assumption.
+  - clear IHu2'.
+    assert (EL : (u1 ++ t :: u2' ++ [b])%list = ((u1 ++ t :: u2') ++ [b])%list)
+      by (rewrite <- app_assoc; reflexivity).
+    rewrite EL in Hg, Hsc |- *. rewrite den_up_path_snoc by assumption.
+    unfold cells_path. rewrite map_app. cbn [map]. rewrite Hx.
+    apply (big_strict_max (den_path (out_of b) ks :: map (fun t0 => den_path (out_of t0) ks) u1)
+                          (map (fun t0 => den_path (out_of t0) ks) u2')).
+    intros y Hy. cbn [app] in Hy.
+    assert (G : forall t', In t' (u1 ++ u2' ++ [b])%list ->
+                (snd (den_path (out_of t') ks) < getv (path_str "" ks) (cvers (out_of t)))%N).
+    { intros t' Ht'. cbn [den_path snd]. apply Hlt. assumption. }
+    destruct Hy as [Hy|Hy].
+    + subst y. apply G. apply in_or_app. right. apply in_or_app. right. left; reflexivity.
+    + apply in_app_or in Hy. destruct Hy as [Hy|Hy]; apply in_map_iff in Hy; destruct Hy as [t' [E Hi]]; subst y; apply G.
+      * apply in_or_app. left; assumption.
+      * apply in_or_app. right. apply in_or_app. left; assumption.
+Qed.
+
+Lemma goodn_outbound : forall c pub, goodn c -> wf_value (VDict pub) ->
+  lookup TASK_EXECUTION_KEY pub = None -> goodn (outbound c pub).
+Proof.
+  intros c pub [Hw Ht] Hp Htp. constructor.
+  - apply wf_outbound; assumption.
+  - unfold te_free. rewrite outbound_data by (apply wf_dict_nodup; assumption). rewrite Htp. assumption.
+Qed.
